@@ -525,6 +525,7 @@ func (x *Exec) staticCall(fr *frame, st *State, f *ssa.Function, cc *ssa.CallCom
 	if r, ok := x.special(fr, st, f, full, args, reach); ok {
 		return r
 	}
+	x.e.ensureBuilt(f)
 	if ct := x.contractFor(f); ct != nil {
 		switch {
 		case ct.Inline && x.canInline(f, fr.depth+1):
@@ -540,6 +541,19 @@ func (x *Exec) staticCall(fr *frame, st *State, f *ssa.Function, cc *ssa.CallCom
 	}
 	if !x.isModuleFunc(f) {
 		if detFuncs[pp+"."+f.Name()] {
+			return x.pureCall(f, args, st)
+		}
+		if len(f.Blocks) > 0 && x.e.inlineDeps[pp] && x.canInline(f, fr.depth+1) {
+			x.inlined[full] = true
+			return x.inline(f, args, nil, st, reach, fr.depth+1)
+		}
+		if strings.HasPrefix(f.Name(), "Get") && f.Signature.Recv() != nil && f.Signature.Params().Len() == 0 {
+			// generated-getter convention (protobuf): GetX() on *T returns the field X
+			// of the same type, or the zero value for a nil receiver
+			if r, ok := x.getterCall(f, args, st, reach); ok {
+				return r
+			}
+			// other library getters: deterministic function of the receiver
 			return x.pureCall(f, args, st)
 		}
 		if noEffectPkgs[pp] || x.isLogPkg(pp) {
@@ -802,6 +816,15 @@ func (x *Exec) applyContract(ct *Contract, f *ssa.Function, sig *types.Signature
 			names[fmt.Sprintf("p%d", k)] = names[n]
 		}
 		names["recv"] = recv
+		// environment contracts may refer to the calling action's parameters
+		// (dynamic scope): the top-level function's params, unless shadowed
+		if x.topFrame != nil {
+			for _, p := range x.top.Params {
+				if _, shadow := names[p.Name()]; !shadow {
+					names[p.Name()] = x.topFrame.vals[p]
+				}
+			}
+		}
 	}
 	pkg := x.e.typesPkg(ct.PkgPath)
 	pre := st.clone()
@@ -811,7 +834,11 @@ func (x *Exec) applyContract(ct *Contract, f *ssa.Function, sig *types.Signature
 		callee := ct.Name
 		name := fmt.Sprintf("%s#call[%s].pre[%s]", x.fname(), callee, clauseLabel(cl, k))
 		props := clauseProps(cl, ct)
-		x.addObl(name, "pre", cl.Text, props, OblPart{NegGoal: And(reach, Not(g)), NAssume: len(x.c.Assumes), Where: where}, false)
+		cex := append([]CexTerm{}, x.cexBase...)
+		for n, v := range names {
+			cex = append(cex, x.cexOf("callarg."+n, v, st, 0)...)
+		}
+		x.addObl(name, "pre", cl.Text, props, OblPart{NegGoal: And(reach, Not(g)), NAssume: len(x.c.Assumes), Where: where, Cex: cex}, false)
 		// after the call the precondition may be assumed (it held, or the obligation fails)
 		x.assume(Imp(reach, g))
 	}
@@ -867,4 +894,34 @@ func sigParamTypes(sig *types.Signature) []types.Type {
 		out = append(out, sig.Params().At(i).Type())
 	}
 	return out
+}
+
+// getterCall models a generated getter `func (x *T) GetF() FT { if x != nil { return x.F }; return zero }`
+// when T has a field F of exactly the result type (assumption recorded).
+func (x *Exec) getterCall(f *ssa.Function, args []Val, st *State, reach Term) ([]Val, bool) {
+	sig := f.Signature
+	if sig.Results().Len() != 1 || len(args) != 1 {
+		return nil, false
+	}
+	pt, ok := sig.Recv().Type().Underlying().(*types.Pointer)
+	if !ok {
+		return nil, false
+	}
+	stt, ok := pt.Elem().Underlying().(*types.Struct)
+	if !ok {
+		return nil, false
+	}
+	fname := strings.TrimPrefix(f.Name(), "Get")
+	for k := 0; k < stt.NumFields(); k++ {
+		fld := stt.Field(k)
+		if fld.Name() == fname && types.Identical(fld.Type(), sig.Results().At(0).Type()) {
+			recv := x.scalarize(args[0])
+			a := &Addr{Kind: addrObj, Base: recv.L[0], Obj: pt.Elem(), Path: fld.Name(), FT: fld.Type()}
+			v := x.load(st, a, reach)
+			z := zeroVal(x.c, fld.Type())
+			x.c.Note("library getter %s assumed to follow the generated-getter convention (returns field %s, zero for a nil receiver)", f.String(), fname)
+			return []Val{iteVal(Eq(recv.L[0], BVLit(0, 32)), z, v)}, true
+		}
+	}
+	return nil, false
 }
